@@ -124,16 +124,16 @@ pub fn lookahead_index(l: &Lookahead, names: &Names, nt: usize) -> Result<usize,
 pub fn machine_to_automaton(m: &Machine, names: &Names, n_rules: usize, nt: usize) -> Result<Automaton, String> {
     let mut states: Vec<ItemSet> = vec![];
     for st in m.states.iter() {
-        let mut map: BTreeMap<Core, u64> = BTreeMap::new();
+        let mut map: BTreeMap<Core, crate::lr::La> = BTreeMap::new();
         let mut count = 0;
         for it in st.items.iter() {
             let c = item_core(it, n_rules)?;
             let l = lookahead_index(&it.lookahead, names, nt)?;
             let e = map.entry(c).or_insert(0);
-            if *e & (1 << l) != 0 {
+            if *e & crate::lr::bit(l) != 0 {
                 return Err("duplicate item in a state".into());
             }
-            *e |= 1 << l;
+            *e |= crate::lr::bit(l);
             count += 1;
         }
         let _ = count;
